@@ -1052,8 +1052,15 @@ impl Config {
                 insertion_index = token.start;
 
                 // Update prefix.
-                let offset_into_token = cursor - insertion_index;
                 let token_str = token.text;
+
+                // N.B. The cursor may have been placed in the middle of a multi-byte
+                // character; only complete the characters that lie wholly before it.
+                let mut offset_into_token = cursor - insertion_index;
+                while !token_str.is_char_boundary(offset_into_token) {
+                    offset_into_token -= 1;
+                }
+
                 completion_prefix = &token_str[..offset_into_token];
 
                 // Update token index.
